@@ -155,10 +155,12 @@ def allocs_coq(al):
                for rp, res in al)
 
 
-def cons_coq(c):
+def cons_coq(c, v=39):
+    # members the body does not carry at this version (alloc_body) are absent from the request term as well, so that the
+    # term is exactly what Model/Decode.v reads from the body
     return '(mkConsIn %s %s %s %s %s %s)' % (
-        z(c['uuid']), allocs_coq(c['allocs']), oz(c.get('proj')), oz(c.get('user')),
-        oz(c.get('gen')), oz(c.get('type')))
+        z(c['uuid']), allocs_coq(c['allocs']), oz(c.get('proj') if v >= 8 else None), oz(c.get('user') if v >= 8 else None),
+        oz(c.get('gen') if v >= 28 else None), oz(c.get('type') if v >= 38 else None))
 
 
 def op_coq(op, rcmap=None):
@@ -203,9 +205,9 @@ def op_coq(op, rcmap=None):
         _, v, u, g, l = op
         return '(AggsSet %s %s %s %s)' % (z(v), z(u), z(g), lst(z(a) for a in l))
     if k == 'alloc_put':
-        return '(AllocPut %s %s)' % (z(op[1]), cons_coq(op[2]))
+        return '(AllocPut %s %s)' % (z(op[1]), cons_coq(op[2], op[1]))
     if k == 'alloc_post':
-        return '(AllocPost %s %s)' % (z(op[1]), lst(cons_coq(c) for c in op[2]))
+        return '(AllocPost %s %s)' % (z(op[1]), lst(cons_coq(c, max(op[1], 12)) for c in op[2]))
     if k == 'alloc_delete':
         return '(AllocDelete %s)' % z(op[1])
     if k == 'reshape':
@@ -213,7 +215,7 @@ def op_coq(op, rcmap=None):
         return '(Reshape %s %s %s)' % (
             z(v), lst('(mkRinvIn %s %s %s)' % (z(u), z(g), lst(inv_coq(i) for i in l))
                       for u, g, l in ri),
-            lst(cons_coq(c) for c in al))
+            lst(cons_coq(c, v) for c in al))
     raise ValueError(k)
 
 
